@@ -181,8 +181,11 @@ func (s *btScn) await() {
 	if s.cut {
 		return
 	}
-	for len(s.ch) > 0 && !s.owed {
-		s.recv()
+	for len(s.ch) > 0 && !s.cut {
+		s.recv() // messages put there by Force; subject to the margin rule while a notification is pending
+	}
+	if s.cut {
+		return
 	}
 	timeout := int64(400)
 	if s.owed {
